@@ -614,6 +614,11 @@ class Model:
             NameError: If the name already exists in the model's ID dictionary.
 
         """
+        self._check_id(name=name, ctx=ctx)
+        self._ids[name] = ctx
+
+    def _check_id(self, *, name: str, ctx: str) -> None:
+        """Raise if the identifier cannot be inserted, without inserting it."""
         if name == "time":
             msg = "time is a protected variable for time"
             raise KeyError(msg)
@@ -621,7 +626,6 @@ class Model:
         if name in self._ids:
             msg = f"Model already contains {ctx} called '{name}'"
             raise NameError(msg)
-        self._ids[name] = ctx
 
     def _remove_id(self, *, name: str) -> None:
         """Remove an ID from the internal dictionary.
@@ -1816,6 +1820,14 @@ class Model:
             Self: The current instance with the added surrogate model.
 
         """
+        # Check all names first, so a rejected surrogate leaves the model untouched
+        new_ids = [name, *(surrogate.outputs if outputs is None else outputs)]
+        for i in new_ids:
+            self._check_id(name=i, ctx="surrogate")
+        if len(set(new_ids)) != len(new_ids):
+            msg = f"Surrogate '{name}' contains duplicate names: {new_ids}"
+            raise NameError(msg)
+
         self._insert_id(name=name, ctx="surrogate")
 
         # Update surrogate if necessary
@@ -1862,8 +1874,18 @@ class Model:
             msg = f"Surrogate '{name}' not found in model"
             raise KeyError(msg)
 
+        old_outputs = list(self._surrogates[name].outputs)
         if surrogate is None:
             surrogate = self._surrogates[name]
+
+        # Check all names first, so a rejected update leaves the model untouched
+        new_outputs = list(surrogate.outputs if outputs is None else outputs)
+        for i in new_outputs:
+            if i not in old_outputs:
+                self._check_id(name=i, ctx="surrogate")
+        if len(set(new_outputs)) != len(new_outputs):
+            msg = f"Surrogate '{name}' contains duplicate outputs: {new_outputs}"
+            raise NameError(msg)
 
         # Update existing / passed surrogate (other args always take precendece)
         if args is not None:
@@ -1874,7 +1896,7 @@ class Model:
             surrogate.stoichiometries = stoichiometries
 
         # Update ids
-        for i in self._surrogates[name].outputs:
+        for i in old_outputs:
             self._remove_id(name=i)
         for i in surrogate.outputs:
             self._insert_id(name=i, ctx="surrogate")
